@@ -818,6 +818,7 @@ def run(res: Results, idx: Index, tier: str) -> None:
     rule_m(res, idx, m)
     rule_n(res, idx, m)
     rule_o(res, idx, m)
+    rule_p(res, idx, m)
 
 
 # ---------------------------------------------------------------------------------------------- R-C02k
@@ -1213,3 +1214,73 @@ def rule_o(res: Results, idx: Index, m: Module) -> None:
     else:
         res.violation("R-C02o", f"{OPT}:{removes[0].lineno}", key, "the reshape-pair fold never compares the rank of the chain's constant side operands with the rank of the source it re-routes the chain to: "
                       "x:(6,) -> Reshape[2,3] -> Max(., zeros((1,1,1))) -> Reshape[6] becomes Max(x, c) of shape (1,1,6)", g.qualname)
+
+
+# ---------------------------------------------------------------------------------------------- R-C02p
+def rule_p(res: Results, idx: Index, m: Module) -> None:
+    """A node a pass inserts has to stand BEFORE every node that reads its output: graphs are serialised in list order and a
+    model whose nodes are not topologically sorted is invalid (the checker rejects it; inside function bodies, where no later
+    pass lifts the Constant, ONNX Runtime refuses to load it).  For every `graph.insert_before(anchor, new_node)`: a node X
+    that is re-wired to read the new node's output (`X.replace_input_with(i, v)`, `_set_node_inputs(X, [... v ...])`) must be
+    the anchor itself, unless the anchor is the first node of the graph; an output that takes over another value's uses
+    (`replace_all_uses_with(old, v)`) must be anchored at the producer of `old`."""
+    res.rule("R-C02p", "nodes inserted by a pass are anchored before every node re-wired to read their output", floor=3)
+    n = 0
+    for fi in m.funcs.values():
+        du = None
+        for c in walk_no_nested(fi.node):
+            if not (isinstance(c, ast.Call) and isinstance(c.func, ast.Attribute) and c.func.attr == "insert_before" and len(c.args) == 2):
+                continue
+            du = du or defuse(fi.node)
+            anchor, newn = c.args
+            n += 1
+            key = f"{OPT}::{fi.qualname}::insert_before::{src(anchor, 30)}#{sum(1 for x in walk_no_nested(fi.node) if isinstance(x, ast.Call) and isinstance(x.func, ast.Attribute) and x.func.attr == 'insert_before' and x.lineno < c.lineno)}"
+            site = f"{OPT}:{c.lineno}"
+            node_calls = [newn] if isinstance(newn, ast.Call) else [d.value for d in du.defs.get(newn.id, []) if d.value is not None and isinstance(d.value, ast.Call)] if isinstance(newn, ast.Name) else []
+            outs: Set[str] = set()
+            for nc in node_calls:
+                for k in nc.keywords:
+                    if k.arg == "outputs":
+                        outs |= names_in(k.value)
+            if not outs:
+                res.unresolved("R-C02p", site, key, "outputs of the inserted node not recognised", fi.qualname)
+                continue
+            aliases = set(outs)
+            for nm, ds in du.defs.items():
+                for d in ds:
+                    if d.value is not None and isinstance(d.value, ast.Name) and d.value.id in aliases:
+                        aliases.add(nm)
+            first = isinstance(anchor, ast.Subscript) and isinstance(anchor.slice, ast.Constant) and anchor.slice.value == 0
+            bad = None
+            n_cons = 0
+            for x in walk_no_nested(fi.node):
+                if not isinstance(x, ast.Call):
+                    continue
+                cn = call_name(x) or ""
+                if isinstance(x.func, ast.Attribute) and x.func.attr == "replace_input_with" and len(x.args) == 2 and names_in(x.args[1]) & aliases:
+                    n_cons += 1
+                    if not first and src(x.func.value, 40) != src(anchor, 40):
+                        bad = bad or (x, f"`{src(x.func.value, 30)}` is re-wired to read the new value but the node is inserted before `{src(anchor, 30)}`")
+                elif cn.endswith("_set_node_inputs") and len(x.args) == 2:
+                    lst = (du.closure(names_in(x.args[1])) | names_in(x.args[1]))
+                    if lst & aliases:
+                        n_cons += 1
+                        if not first and src(x.args[0], 40) != src(anchor, 40):
+                            bad = bad or (x, f"`{src(x.args[0], 30)}` gets the new value among its inputs but the node is inserted before `{src(anchor, 30)}`")
+                elif cn.endswith("replace_all_uses_with") and len(x.args) >= 2 and names_in(x.args[1]) & aliases:
+                    n_cons += 1
+                    old = x.args[0]
+                    old_src = [d.value for nm in names_in(old) for d in du.defs.get(nm, []) if d.value is not None]
+                    anchored = any(isinstance(v_, ast.Call) and (call_name(v_) or "").endswith("_node_output") and v_.args and src(v_.args[0], 40) == src(anchor, 40) for v_ in old_src)
+                    if not first and not anchored and not any(isinstance(v_, ast.Call) and (call_name(v_) or "").endswith("_node_output") for v_ in old_src):
+                        continue
+                    if not first and not anchored:
+                        bad = bad or (x, f"the new value takes over the uses of `{src(old, 30)}`, which is not the output of the anchor `{src(anchor, 30)}`")
+            if bad is not None:
+                res.violation("R-C02p", f"{OPT}:{bad[0].lineno}", key, f"{bad[1]}: the inserted node can end up AFTER a node that reads its output — the graph is no longer topologically sorted (invalid model "
+                              "whenever a later pass aborts, and always inside function bodies)", fi.qualname)
+            elif n_cons == 0:
+                res.unresolved("R-C02p", site, key, "no re-wiring of the inserted node's output found in this function", fi.qualname)
+            else:
+                res.ok("R-C02p", site, key, f"{n_cons} reader(s) of the inserted node's output are the anchor itself" + (" (anchor is the first node)" if first else ""), fi.qualname)
+    res.analysed["insert_before_sites"] = n
